@@ -144,5 +144,7 @@ func main() {
 		genSkel(p, *out)
 		genApi(p, *out)
 		genEffects(p, *out)
+		genAcc(p, *out)
+		genDump(p, *out)
 	}
 }
